@@ -243,6 +243,9 @@ def _search_dirs(dirs: List[Path], search_glob: str) -> List[Path]:
                 continue
             if name_part.startswith("_") and name_part != "__init__.py":
                 continue
+            # Skip directories - e.g. a directory named `abc.py` is not a python module
+            if not path.is_file():
+                continue
 
             matched_files.append(path)
 
